@@ -6,7 +6,8 @@
 EXTENDS NtsKe
 
 \* every record the peer can send except sH (only the project's own server names itself)
-AlphaAll  == AllRecs \ {"sH"}
+\* (with a body of the typical length; the body length variants: AlphaLen, AlphaWalk)
+AlphaAll  == BaseRecs \ {"sH"}
 \* one representative per class of ReadData's switch (exhaustive runs with more calls)
 AlphaCore == {"np", "a15", "aX", "ck", "sA", "pA", "warn", "uc", "un", "e1", "eom"}
 CutAll    == AlphaAll
@@ -28,4 +29,14 @@ ViasMeasure == {"measure"}
 ViasBoth    == {"fetch", "measure"}
 AlphaStallDeep == AlphaStall \cup {"un"}
 CutStallDeep   == CutStall \cup {"un"}
+\* the body length family (NtsKeGen!LenFamily): unknown critical / unknown
+\* non-critical / Warning records with body length 0 | 1 | typical inside an
+\* otherwise acceptable message; the stream may end inside the header of one
+AlphaLen  == {"a15", "ck", "eom"} \cup UnkCrit \cup UnkNon \cup Warns
+CutLen    == {"uc0", "un0", "un1"}
+\* exhaustive runs: one representative per class of ReadData's switch + the body length variants
+AlphaCoreLen == AlphaCore \cup LenRecs
+CutCoreLen   == CutCore \cup {"un0", "uc1"}
+\* the walks
+AlphaWalk == AlphaAll \cup LenRecs
 =============================================================================
